@@ -403,6 +403,7 @@ class Rig:
         del StubGSS.created[:]
         del CountingChannel.created[:]
         self.p = F.Pair(server=self.srv).start()
+        s.quiesce()   # start() returns when the CLIENT has the new keys; let the server finish too
         self.tc, self.ts = self.p.tc, self.p.ts
         self.srv.glog = self.p.glog
         self.stub = ClientStub()
